@@ -300,6 +300,11 @@ fn run_shard(ctx: &ShardCtx, acc: &mut Acc) {
             },
         );
         let code = p.b.code();
+        for f in &p.features {
+            if f.starts_with("fault:") {
+                acc.label(f);
+            }
+        }
         let default_gas = VmCfg::default().gas_limit;
         let gas_limit = if ch.chance(1, 2) {
             default_gas
